@@ -45,3 +45,10 @@ class SrThunk(Unit):
         if "resumed=1" not in summary or "quiescent=1" not in summary:
             return "model not quiescent with exactly one resumption at the end of a complete implementation run: " + summary
         return None
+
+
+class SrThunkDebug(SrThunk):
+    """The same driver built WITH assertions and async stacks (no NDEBUG) under schedule control: property C20's
+    coroutine path - every schedule of the stop-request thunk must leave the async-stack bookkeeping balanced
+    (~ScopedAsyncStackRoot / popAsyncStackFrameCallee assert it) and give the same lock-step trace as the release build."""
+    name = "task/SrThunk-debug"; cfg = "shimdbg20"
